@@ -233,7 +233,7 @@ def check_docs(case, ctx):
 def run(ctx):
     if ctx.shard == 0:
         ctx.direct(check_docs, "docs")
-    ctx.hypothesis(st_case(), check_case, ctx.scale(16000, 1600000), label="formula")
+    ctx.hypothesis(st_case(), check_case, ctx.scale(16000, 800000), label="formula")
     sph = st.fixed_dictionaries({
         "E": st.floats(1, 6).map(lambda e: 10.0 ** e), "R": st.floats(-7, -4).map(lambda e: 10.0 ** e),
         "nu": st.floats(0.0, 0.5), "dmax": st.one_of(st.floats(0.01, 1.0), st.just(1.0)),
